@@ -32,7 +32,7 @@ func hsetCommon(ctx *cmdContext, args map[string]any, options bitflags) (output 
 		}
 	}
 
-	added, wrongType := ctx.dsc.setHashTableFields(keyName, fieldNames, values)
+	added, wrongType := ctx.dsc.setHashTableWorker(keyName, fieldNames, values, options)
 	if wrongType {
 		output.data = wrongTypeError
 	} else {
